@@ -155,6 +155,7 @@ func main() {
 			"known_findings_hit":            rep.KnownHits,
 			"race_detector":                 pr.race,
 			"race_reports_confirmed":        racesConfirmed,
+			"race_reports_not_reproduced":   pr.racesUnconfirmed,
 			"rule":                          "every program of the family is rendered to Go, compiled by the cff binary built from the working tree, linked against the rewritten scheduler, and every (program, outcome vector, N) scenario is explored over all interleavings (sleep-set DFS, unbounded); each execution is compared with the reference interpreter of the directive semantics",
 		},
 		Assumptions: []string{
@@ -190,21 +191,24 @@ func setRaceEnv(build string) {
 // confirmRace replays one schedule in a fresh driver process and reports
 // whether the race detector fires again.
 func confirmRace(build string, sc genrt.Scenario, decisions []int) (string, bool) {
-	t := []genrt.Task{{Sc: sc, Replay: decisions}}
-	if t[0].Replay == nil {
-		t[0].Replay = []int{}
+	t := genrt.Task{Sc: sc, Replay: decisions}
+	if t.Replay == nil {
+		t.Replay = []int{}
 	}
-	tb, _ := json.Marshal(t)
+	// The detector does not report every racing pair on every run of the same
+	// schedule (measured: between 10% and 70% per run, depending on the pair,
+	// once all channel annotations are on - DESIGN.md section 3.6), so the
+	// schedule is replayed in many fresh processes: rounds of 16 identical tasks
+	// on 16 fresh workers, up to 6 rounds. A report is never produced for
+	// ordered accesses, so one reproduction confirms the finding.
 	tf, rf := filepath.Join(build, "race-tasks.json"), filepath.Join(build, "race-results.json")
+	var batch []genrt.Task
+	for i := 0; i < 16; i++ {
+		batch = append(batch, t)
+	}
+	tb, _ := json.Marshal(batch)
 	os.WriteFile(tf, tb, 0o644)
-	last := ""
-	// The detector does not report every racing pair on every run of the
-	// same schedule (measured: 30-60% per run for some pairs once the
-	// channel annotations are on; its bounded shadow/trace state is the
-	// documented reason), so the replay is attempted several times, each in
-	// a fresh process. A report is never produced for ordered accesses, so
-	// one reproduction confirms the finding.
-	for attempt := 0; attempt < 16; attempt++ {
+	for round := 0; round < 6; round++ {
 		os.Remove(rf)
 		so, se, code := runCmd(build, filepath.Join(build, "bin", "driver"), "-tasks", tf, "-out", rf)
 		if code != 0 {
@@ -213,34 +217,36 @@ func confirmRace(build string, sc genrt.Scenario, decisions []int) (string, bool
 		rb, _ := os.ReadFile(rf)
 		var results []resultRec
 		json.Unmarshal(rb, &results)
-		if len(results) != 1 {
+		if len(results) == 0 {
 			return "no result", false
 		}
-		for _, v := range results[0].Violations {
-			if v.Prop == "C12" {
-				return "", true
+		for _, r := range results {
+			for _, v := range r.Violations {
+				if v.Prop == "C12" {
+					return "", true
+				}
 			}
 		}
-		last = "no race report in 16 fresh replays; last results: " + truncate(string(rb), 400)
 	}
-	return last, false
+	return "no race report in 96 fresh replays", false
 }
 
 // planResult is what one execution of a plan (one generation mode) yields.
 type planResult struct {
-	tot            statsRec
-	exhaustive     bool
-	capped         []string
-	visibles       int
-	samples        []any
-	outcomes       map[string][]string // "program key :: scenario" -> distinct observable outcomes over all schedules
-	rejected       int
-	broken         int
-	scenarios      int
-	racesConfirmed int
-	race           bool
-	results        []resultRec
-	runProg        []*pg.Program
+	tot              statsRec
+	exhaustive       bool
+	capped           []string
+	visibles         int
+	samples          []any
+	outcomes         map[string][]string // "program key :: scenario" -> distinct observable outcomes over all schedules
+	rejected         int
+	broken           int
+	scenarios        int
+	racesConfirmed   int
+	racesUnconfirmed int
+	race             bool
+	results          []resultRec
+	runProg          []*pg.Program
 }
 
 // execPlan generates the programs of pl in one mode, builds the driver,
@@ -310,7 +316,7 @@ func execPlan(prop, tier string, pl *plan, gm genMode, sub string, tasks []genrt
 		mc.ToolError("bad driver results: %v", err)
 	}
 	var tot statsRec
-	racesConfirmed := 0
+	racesConfirmed, racesUnconfirmed := 0, 0
 	exhaustive := true
 	var capped []string
 	visibles := 0
@@ -350,9 +356,16 @@ func execPlan(prop, tier string, pl *plan, gm genMode, sub string, tasks []genrt
 			if v.Race {
 				// confirm in a fresh process (the detector reports a pair of stacks once per process)
 				if msg, ok := confirmRace(build, run[i].Sc, v.Decisions); !ok {
-					mc.ToolError("NONDETERMINISM: a race report for %s [%s] was not reproduced by replaying its schedule in a fresh process: %s", r.Scenario, progKey(p), msg)
+					if !strings.HasPrefix(msg, "no race report") {
+						mc.ToolError("confirming a race report for %s [%s] failed: %s", r.Scenario, progKey(p), msg)
+					}
+					// The detector's report during exploration stands (it never reports ordered
+					// accesses); what failed is only the attempt to see it again.
+					v.Msg += "\n  NOTE: produced during exploration, but it did not reappear in 96 fresh replays of this schedule (the detector misses some racing pairs in most runs)"
+					racesUnconfirmed++
+				} else {
+					racesConfirmed++
 				}
-				racesConfirmed++
 			}
 			scj, _ := json.Marshal(map[string]any{"program": p, "scenario": run[i].Sc})
 			rep.Report(&mc.Replay{Property: v.Prop, Engine: "genmc", Key: progKey(p) + " :: " + strings.TrimPrefix(r.Scenario, p.ID+" "), Message: v.Msg,
@@ -368,6 +381,7 @@ func execPlan(prop, tier string, pl *plan, gm genMode, sub string, tasks []genrt
 	}
 	pr.tot, pr.exhaustive, pr.capped, pr.visibles, pr.samples = tot, exhaustive, capped, visibles, samples
 	pr.rejected, pr.broken, pr.scenarios, pr.racesConfirmed, pr.race = rejected, len(g.broken), len(run), racesConfirmed, g.race
+	pr.racesUnconfirmed = racesUnconfirmed
 	pr.results, pr.runProg = results, runProg
 	for i, r := range results {
 		pr.outcomes[progKey(runProg[i])+" :: "+strings.TrimPrefix(r.Scenario, runProg[i].ID+" ")] = r.Outcomes
